@@ -26,5 +26,13 @@ class _Python_Potential_Function(object):
   
   def __call__(self, *args):
     self._check_call(*args)
+    if self._potential_form_tuple.signature.is_varargs:
+      # The argument count of a function accepting *args (e.g. pymath.log(x[, base])) can't be checked beforehand
+      try:
+        return self._pyfunc(*args)
+      except TypeError as e:
+        from ._common import Potential_Form_Exception
+        raise Potential_Form_Exception("Function '{}' called with arguments {}: {}".format(
+          self._potential_form_tuple.signature.label, self._check_call.how_used(*args), e))
     return self._pyfunc(*args)
 
